@@ -15,7 +15,10 @@ use std::path::{Path, PathBuf};
 use std::process::{Command, Stdio};
 use std::time::{Duration, Instant};
 
-pub const VERIF_ROOT: &str = "/verif";
+/// Root of the verification tree: /verif, or the snapshot the check script runs from (`vp run`).
+pub fn verif_root() -> PathBuf {
+    PathBuf::from(std::env::var("VERIF_ROOT").unwrap_or_else(|_| "/verif".to_string()))
+}
 
 #[derive(Clone, Copy, Debug, PartialEq, Eq)]
 pub enum Tier {
@@ -126,7 +129,7 @@ impl Evidence {
         self
     }
     pub fn write(&self) {
-        let dir = Path::new(VERIF_ROOT).join("evidence");
+        let dir = verif_root().join("evidence");
         let _ = std::fs::create_dir_all(&dir);
         let v = json!({
             "property_id": self.property,
@@ -170,7 +173,7 @@ pub struct FindingsFile {
 }
 
 pub fn load_findings() -> Vec<Finding> {
-    let p = Path::new(VERIF_ROOT).join("known_findings.json");
+    let p = verif_root().join("known_findings.json");
     match std::fs::read_to_string(&p) {
         Ok(s) => serde_json::from_str::<FindingsFile>(&s)
             .unwrap_or_else(|e| machinery_error(&format!("known_findings.json does not parse: {e}")))
@@ -236,7 +239,7 @@ impl Verdict {
         let mut n_new = 0;
         for (sig, v) in &new_by_sig {
             n_new += 1;
-            let dir = Path::new(VERIF_ROOT).join("replays").join(&self.property);
+            let dir = verif_root().join("replays").join(&self.property);
             let _ = std::fs::create_dir_all(&dir);
             let path = dir.join(format!("{:016x}.json", fnv(&format!("{}|{}", sig, v.case))));
             let body = json!({
